@@ -67,3 +67,6 @@ func (r *Rand) Perm(n int) []int {
 	}
 	return p
 }
+
+// PickS returns one of the given strings.
+func (r *Rand) PickS(xs ...string) string { return xs[r.Intn(len(xs))] }
